@@ -529,6 +529,28 @@ except Exception:
     pass
 
 
+class _FoldingDict(dict):
+    """a dict subclass with lookup rules of its own: keys are stored lower-cased, every access folds the key (a case-insensitive mapping as web frameworks hand out)"""
+    def __init__(self, d=()):
+        super().__init__()
+        for k, v in dict(d).items():
+            super().__setitem__(k.lower() if isinstance(k, str) else k, _FoldingDict(v) if type(v) is dict else v)
+    def _f(self, k): return k.lower() if isinstance(k, str) else k
+    def __getitem__(self, k): return super().__getitem__(self._f(k))
+    def __contains__(self, k): return super().__contains__(self._f(k))
+    def get(self, k, default=None): return super().get(self._f(k), default)
+
+
+def _wide_items(b):
+    """the same bytes as a buffer whose items are wider than a byte (memoryview.cast / array.array): len() counts items, nbytes counts bytes"""
+    b = bytes(b)
+    for code in ("Q", "I", "H"):
+        import struct as _st
+        if len(b) and len(b) % _st.calcsize(code) == 0:
+            return memoryview(b).cast(code)
+    return memoryview(b)
+
+
 def _strided(b):
     return memoryview(bytes(y for x in bytes(b) for y in (x, 0x5A)))[::2]
 
@@ -567,7 +589,11 @@ def equivalent_auth_calls(pol, a):
         out.append(("record with reversed-stride memoryviews", lambda: call(rec(_reversed_view), expected_challenge=_reversed_view(pol.challenge))))
         out.append(("record with bytearrays", lambda: call(rec(bytearray), expected_challenge=bytearray(pol.challenge), credential_public_key=bytearray(pol.pubkey))))
         out.append(("record whose type is the plain string", lambda: call(rec(bytes, typ="public-key"))))
+        out.append(("record with buffers of multi-byte items", lambda: call(rec(_wide_items))))
     d = lambda: a.as_dict()
+    out.append(("credential in a dict subclass with lookup rules of its own", lambda: call(_FoldingDict(a.as_dict()))))
+    if pol.require_uv is False:
+        out.append(("require_user_verification=None", lambda: call(d(), require_user_verification=None)))
     out.append(("expectations as str subclasses", lambda: call(d(), expected_rp_id=_S(pol.rp_id), expected_origin=_retype_strs(pol.origin, _S))))
     if not isinstance(pol.origin, str):
         out.append(("expected origins as a tuple", lambda: call(d(), expected_origin=tuple(pol.origin))))
@@ -598,7 +624,11 @@ def equivalent_reg_calls(pol, reg):
         out.append(("record with reversed-stride memoryviews", lambda: call(rec(_reversed_view))))
         out.append(("record with bytearrays", lambda: call(rec(bytearray), expected_challenge=bytearray(pol.challenge))))
         out.append(("record whose type is the plain string", lambda: call(rec(bytes, typ="public-key"))))
+        out.append(("record with buffers of multi-byte items", lambda: call(rec(_wide_items))))
     d = lambda: reg.as_dict()
+    out.append(("credential in a dict subclass with lookup rules of its own", lambda: call(_FoldingDict(reg.as_dict()))))
+    if pol.require_uv is False or pol.require_up is False:
+        out.append(("policy switches that are off given as None", lambda: call(d(), **({"require_user_verification": None} if pol.require_uv is False else {}), **({"require_user_presence": None} if pol.require_up is False else {}))))
     out.append(("expectations as str subclasses", lambda: call(d(), expected_rp_id=_S(pol.rp_id), expected_origin=_retype_strs(pol.origin, _S))))
     if not isinstance(pol.origin, str):
         out.append(("expected origins as a tuple", lambda: call(d(), expected_origin=tuple(pol.origin))))
